@@ -299,6 +299,12 @@ class HTTP(BaseComponent):
             res.protocol = 'HTTP/{:d}.{:d}'.format(*min(rp, sp))
             res.close = not parser.should_keep_alive()
 
+        if parser.errno is not None:
+            # the body cannot be completed any more (bad chunk size or chunk
+            # terminator): the message is rejected like one with bad headers
+            del self._buffers[sock]
+            return self.fire(httperror(req, res, 400))
+
         clen = int(req.headers.get('Content-Length', '0'))
         if (clen or parser.is_chunked()) and not parser.is_message_complete():
             return None
